@@ -43,8 +43,39 @@ def nsi_calls(net, src, tgt):
     return calls
 
 
+def _group_obs(net, src, tgt, o):
+    """n.s.i. cross / internal measures of InteractingNetworks for the node groups (S, T): vectors are
+    indexed by the position in the FIRST list of the call (recorded in o["gl"])."""
+    from pyunicorn.core import InteractingNetworks
+    from props import c11
+    if not src or not tgt or net.directed:
+        return
+    inet = InteractingNetworks(adjacency=net.adjacency, directed=net.directed, node_weights=net.node_weights,
+                               silence_level=3)
+    calls = []
+    for name in [n for n in c11.PAIR if n.startswith("nsi_")]:
+        calls.append(("I.%s(S,T)" % name, "S", lambda name=name: getattr(inet, name)(list(src), list(tgt))))
+        calls.append(("I.%s(T,S)" % name, "T", lambda name=name: getattr(inet, name)(list(tgt), list(src))))
+    for name in [n for n in c11.SINGLE if n.startswith("nsi_")]:
+        calls.append(("I.%s(S)" % name, "S", lambda name=name: getattr(inet, name)(list(src))))
+        calls.append(("I.%s(T)" % name, "T", lambda name=name: getattr(inet, name)(list(tgt))))
+    for label, which, thunk in calls:
+        try:
+            a = np.asarray(thunk())
+            if a.ndim == 0:
+                o["s"][label] = enc.num(a[()])
+            elif a.ndim == 1 and a.shape[0] == inet.N and label.split("(")[0].endswith("betweenness"):
+                o["v"][label] = enc.arr(a)
+            elif a.ndim == 1:
+                o["g"][label] = enc.arr(a)
+                o["gl"][label] = which
+        except Exception as ex:
+            o["x"][label] = type(ex).__name__
+
+
 def observe(net, src, tgt):
-    o = {"s": {}, "v": {}, "m": {}, "x": {}}
+    o = {"s": {}, "v": {}, "m": {}, "x": {}, "g": {}, "gl": {}}
+    _group_obs(net, src, tgt, o)
     n = net.N
     for label, thunk in nsi_calls(net, src, tgt):
         try:
@@ -98,7 +129,11 @@ def run_case(c):
                  "wexact": int(np.allclose(new.node_weights * den, np.round(new.node_weights * den)))}
         return new, state, src, tgt
 
+    def pos(lst, v):
+        return lst.index(v - 1) + 1 if (v - 1) in lst else 0
+    rec["pos1"] = [pos(src, c["v"]), pos(tgt, c["v"])]
     net1, rec["split1"], src1, tgt1 = split(net0, c["v"], c["pn"], c["pd"], src, tgt)
+    rec["pos2"] = [pos(src1, c["v2"]), pos(tgt1, c["v2"])]
     rec["obs1"] = observe(net1, src1, tgt1)
     net2, rec["split2"], src2, tgt2 = split(net1, c["v2"], c["p2n"], c["p2d"], src1, tgt1)
     rec["obs2"] = observe(net2, src2, tgt2)
@@ -134,6 +169,6 @@ def main(ctx):
 
 def replay(ctx, rep):
     rec = rep["record"]
-    case = {k: v for k, v in rec.items() if k not in ("obs0", "obs1", "obs2", "split1", "split2", "warm")}
+    case = {k: v for k, v in rec.items() if k not in ("obs0", "obs1", "obs2", "split1", "split2", "warm", "pos1", "pos2")}
     recs = ctx.run_cases("props.c02.run_case", [case], jobs=1)
     ctx.validate("Val_C02", "Val_C02", recs, nontrivial=_nontrivial)
